@@ -684,6 +684,19 @@ fn exercise_pattern(ctx: &mut Ctx, pat: &Pattern, names: &[String]) {
         extended.push(witness.replace('-', ""));
         extended.push(format!("{}-", witness));
     }
+    // one long name (4-32 KiB, derived from the pattern text alone): a matcher or a
+    // version tokeniser must stay linear in the name - the work meter sees a
+    // quadratic copy here although it still finishes in milliseconds
+    {
+        let h = crate::rng::hash_str(&text);
+        let unit: &str = ["a", "1.", "x9", "alpha", ".0", "rc1", "é", "-", "nb"][(h % 9) as usize];
+        let len = 4096 + (h >> 8) as usize % 28672;
+        let mut long = if witness.is_empty() { String::from("w-") } else { format!("{}-", witness) };
+        while long.len() < len {
+            long.push_str(unit);
+        }
+        extended.push(long);
+    }
     let names = &extended;
     for n in names {
         let m = metered!(ctx, n.len() + weight, pat.matches(n));
@@ -1001,7 +1014,7 @@ fn pipeline_b(
                 ep!(ctx, "PlistEntry::from_bytes", e.is_ok());
             }
         }
-        let text = metered!(ctx, 4096, sum.to_string());
+        let __w = Work::start(); let text = sum.to_string(); __w.stop(ctx, text.len() + 256);
         ep!(ctx, "Summary::Display", true);
         let _ = (sum.is_completed(), sum.pkgbase(), sum.pkgversion(), sum.description_as_str());
         let parsed = metered!(ctx, text.len(), Summary::from_str(&text));
@@ -1192,7 +1205,7 @@ fn pipeline_d(seed: u64, ops: &[DOp], ctx: &mut Ctx) -> Outcome {
             }
             DOp::ParsePrinted { seed } => {
                 set_hash_seed(*seed);
-                let t = metered!(ctx, 4096, sum.to_string());
+                let __w = Work::start(); let t = sum.to_string(); __w.stop(ctx, t.len() + 256);
                 let r = metered!(ctx, t.len(), Summary::from_str(&t));
                 ep!(ctx, "Summary::from_str", r.is_ok());
                 if let Ok(p) = r {
